@@ -251,12 +251,94 @@ def retry_effects(chk, repo, rid):
            attrs == ['additional_variants_per_misc', 'max_variants_per_node'],
            f"attribute writes in the retry handler: {sorted((o + '.' + a) for (o, a, _n) in attr_w)} (a retry may alter enzyme / limits / flags)", key=r.qual + '::attr-writes', fn=r.qual)
     item_w = [(unparse(a.targets[0].value), unparse(a.targets[0].slice), a) for a in assigns if isinstance(a.targets[0], ast.Subscript)]
-    rebind = [a for a in assigns if isinstance(a.targets[0], ast.Name) and a.targets[0].id == param and unparse(a.value) in D]
-    ok = len(P) >= 1 and len(D) >= 1 and all(o in P for (o, _a, _n) in attr_w) and all(o in D for (o, _k, _n) in item_w) and \
-        any(k == "'cleavage_params'" and unparse(n.value) in P for (_o, k, n) in item_w) and len(rebind) == 1
-    chk.ob(rid, 'parameters and dispatch are copied before being modified', repo.loc(r, hb), ok,
-           f"the retry mutates the shared dispatch / cleavage parameters in place (copies of params: {sorted(P)}, copies of dispatch: {sorted(D)}, "
-           f"attribute writes on {sorted({o for (o, _a, _n) in attr_w})}, item writes on {sorted({o for (o, _k, _n) in item_w})})", key=r.qual + '::copies', fn=r.qual)
+    # flow-sensitive identity tracking through the handler: every local holds a token
+    #   ('shared',) the caller's dispatch | ('D', n) a fresh copy of a dispatch | ('P', n) a fresh copy of its cleavage parameters
+    # writes must hit fresh copies only and the retried dispatch must be a fresh copy carrying the fresh parameters
+    state = {param: ('shared',)}
+    fresh = [0]
+    bad, unknown = [], []
+    linked = set()           # D tokens whose 'cleavage_params' item was set to a P token
+
+    def tok(e):
+        if isinstance(e, ast.Name):
+            return state.get(e.id)
+        if isinstance(e, ast.Call) and call_name(e) in ('copy', 'deepcopy') and len(e.args) == 1:
+            a0 = e.args[0]
+            t = tok(a0)
+            if isinstance(a0, ast.Name) and t is not None and t[0] in ('shared', 'D'):
+                fresh[0] += 1
+                return ('D', fresh[0])
+            if isinstance(a0, ast.Name) and t is not None and t[0] == 'P':
+                fresh[0] += 1
+                return ('P', fresh[0])
+            if isinstance(a0, ast.Subscript) and isinstance(a0.value, ast.Name) and unparse(a0.slice) == "'cleavage_params'":
+                t = tok(a0.value)
+                if t is not None and t[0] in ('shared', 'D'):
+                    fresh[0] += 1
+                    return ('P', fresh[0])
+        if isinstance(e, ast.Subscript) and isinstance(e.value, ast.Name) and unparse(e.slice) == "'cleavage_params'":
+            t = tok(e.value)
+            if t is not None and t[0] in ('shared', 'D'):
+                return ('sharedP',)
+        return None
+
+    def step(stmts, cond):
+        for st in stmts:
+            if isinstance(st, ast.Assign) and len(st.targets) == 1:
+                tg = st.targets[0]
+                if isinstance(tg, ast.Name):
+                    t = tok(st.value)
+                    if cond and (t is not None or tg.id in state):
+                        unknown.append(f"`{norm_stmt(st)}` binds a tracked object under a condition")
+                    if t is not None:
+                        state[tg.id] = t
+                    else:
+                        state.pop(tg.id, None)
+                elif isinstance(tg, ast.Attribute):
+                    t = tok(tg.value)
+                    if t is None or t[0] != 'P':
+                        bad.append(f"`{norm_stmt(st)}` writes an attribute of {unparse(tg.value)}, which is not a fresh copy of the cleavage parameters")
+                elif isinstance(tg, ast.Subscript):
+                    t = tok(tg.value)
+                    if t is None or t[0] != 'D':
+                        bad.append(f"`{norm_stmt(st)}` writes an item of {unparse(tg.value)}, which is not a fresh copy of the dispatch")
+                    elif unparse(tg.slice) == "'cleavage_params'":
+                        v = tok(st.value)
+                        if v is not None and v[0] == 'P':
+                            linked.add(t)
+                        else:
+                            bad.append(f"`{norm_stmt(st)}` stores parameters that are not a fresh copy")
+            elif isinstance(st, ast.AugAssign) and isinstance(st.target, ast.Attribute):
+                t = tok(st.target.value)
+                if t is None or t[0] != 'P':
+                    bad.append(f"`{norm_stmt(st)}` writes an attribute of {unparse(st.target.value)}, which is not a fresh copy of the cleavage parameters")
+            elif isinstance(st, ast.If):
+                step(st.body, True)
+                step(st.orelse, True)
+            elif isinstance(st, (ast.For, ast.While, ast.With, ast.Try)):
+                for fld in ('body', 'orelse', 'finalbody'):
+                    step(getattr(st, fld, []) or [], True)
+                for hh in getattr(st, 'handlers', []) or []:
+                    step(hh.body, True)
+            elif isinstance(st, ast.Expr) and isinstance(st.value, ast.Call) and isinstance(st.value.func, ast.Attribute) and \
+                    st.value.func.attr in ('update', 'pop', 'setdefault', 'clear', 'popitem', '__setitem__', '__setattr__'):
+                t = tok(st.value.func.value)
+                if t is not None and t[0] not in ('D', 'P'):
+                    bad.append(f"`{norm_stmt(st)}` mutates the shared {unparse(st.value.func.value)}")
+            elif isinstance(st, ast.Expr) and isinstance(st.value, ast.Call) and call_name(st.value) == 'setattr' and st.value.args:
+                t = tok(st.value.args[0])
+                if t is None or t[0] != 'P':
+                    bad.append(f"`{norm_stmt(st)}` writes an attribute of {unparse(st.value.args[0])}, which is not a fresh copy of the cleavage parameters")
+
+    step(hb.body, False)
+    end = state.get(param)
+    if not bad and not (end is not None and end[0] == 'D' and end in linked):
+        bad.append(f"the dispatch retried after the handler is not a fresh copy carrying fresh parameters (it is {end})")
+    if unknown and not bad:
+        chk.undecided(rid, 'parameters and dispatch are copied before being modified', repo.loc(r, hb), '; '.join(unknown), key=r.qual + '::copies', fn=r.qual)
+    else:
+        chk.ob(rid, 'parameters and dispatch are copied before being modified', repo.loc(r, hb), not bad,
+               'the retry mutates the shared dispatch / cleavage parameters in place: ' + '; '.join(bad), key=r.qual + '::copies', fn=r.qual)
     keys = sorted({k for (_o, k, _n) in item_w})
     chk.ob(rid, "only dispatch['cleavage_params'] is replaced", repo.loc(r, hb), keys == ["'cleavage_params'"],
            f"dispatch entries replaced: {keys}", key=r.qual + '::item-writes', fn=r.qual)
